@@ -106,7 +106,12 @@ impl NetworkAddress {
         let enc = FourWordAdaptiveEncoder::new()?;
         let normalized = words.replace('-', " ");
         let decoded = enc.decode(&normalized)?; // returns a normalized address string
-        let socket_addr: SocketAddr = decoded.parse()?; // must include port
+        // The codec uses port 65535 as its "no port" marker and omits it from the
+        // decoded text, so a bare IP address stands for that port.
+        let socket_addr: SocketAddr = match decoded.parse() {
+            Ok(socket_addr) => socket_addr,
+            Err(_) => SocketAddr::new(decoded.parse::<IpAddr>()?, 65535),
+        };
         Ok(Self::new(socket_addr))
     }
 
